@@ -200,6 +200,36 @@ pub fn nested(kind: NestKind, depth: usize) -> String {
     }
 }
 
+/// a statement that is *long* rather than deep: a flat chain of one binary operator, separator or
+/// list item, `n` links long (no parentheses, no nesting: the evaluator's nesting cap never applies,
+/// so nothing but iteration keeps the native stack flat)
+pub fn flat_chain(rng: &mut Rng, n: usize) -> String {
+    match rng.below(14) {
+        0 => format!("PRINT 0{}", " OR 0".repeat(n)),
+        1 => format!("PRINT 1{}", " AND 1".repeat(n)),
+        2 => format!("PRINT 1{}", " + 1".repeat(n)),
+        3 => format!("PRINT 1{}", " * 1".repeat(n)),
+        4 => format!("PRINT 1{}", " = 1".repeat(n)),
+        5 => format!("PRINT 1{}", " ^ 1".repeat(n)),
+        6 => format!("PRINT \"a\"{}", " + \"a\"".repeat(n.min(20000))),
+        7 => format!("PRINT 1{}", ";1".repeat(n.min(20000))),
+        8 => format!("X = 1{}", " : X = 1".repeat(n)),
+        9 => ":".repeat(n),
+        10 => format!("DATA 1{}", ",1".repeat(n)),
+        11 => format!("PRINT 1{}", " - 1".repeat(n)),
+        12 => format!("PRINT 1{}", " < 1".repeat(n)),
+        _ => format!("IF 1{} THEN PRINT 1", " OR 1".repeat(n)),
+    }
+}
+
+pub fn flat_length(rng: &mut Rng, allow_huge: bool) -> usize {
+    if allow_huge {
+        rng.pick(&[100usize, 3000, 20000, 100000, 300000])
+    } else {
+        rng.pick(&[10usize, 100, 1000])
+    }
+}
+
 pub fn nest_depth(rng: &mut Rng, allow_huge: bool) -> usize {
     if allow_huge {
         rng.pick(&[10usize, 33, 100, 300, 1000, 2500, 5000, 20000, 100000])
